@@ -27,7 +27,7 @@ PARTIAL = {
     "C05": "proved for all inputs: CJJ14.PiBas |D| == N, CJJ14.PiPack |D| == number of blocks, and the table builder's size; bounded stand-in only: the other seven schemes and value-length uniformity",
     "C06": "proved for all inputs: the label-table builders of CJJ14.PiBas / PiPack store labels in strictly ascending order (modulo B3); bounded stand-in only: the other builders and array placement",
     "C07": "proved for all inputs: for all nine schemes, KeyGen/EDBSetup/TokenGen/Search and _Gen/_Enc/_Trap/_Search (with every function they call, transitively) mutate nothing reachable from their arguments or from self -- frame contracts decided by the ownership pass (pyvc/own.py: abstract interpretation of the real AST, one obligation per mutating statement); for CJJ14.PiBas / PiPack the same frame obligations are also discharged by the SMT engine together with the functional contracts; bounded stand-in only: the history claim (results independent of earlier operations) and value-level equality of arguments before/after",
-    "C08": "proved for all inputs: CJJ14.PiBas / PiPack _parse_config exact refusal conditions; bounded stand-in only: the configuration grid of the property over all nine schemes",
+    "C08": "proved for all inputs: the last clause for all nine schemes -- for every key that a scheme's _parse_config reads from the dictionary (read from the real source on every run), a configuration without that key is refused with ValueError while the configuration is built (125 contract variants); CJJ14.PiBas / PiPack _parse_config exact refusal conditions and, through C01, correct searches for every accepted configuration of those two schemes; bounded stand-in only: 'setup completes => every search is correct' over the configuration grid for the other seven schemes",
 }
 
 PARTIAL["C04"] = "proved: for all nine schemes, every byte string reachable from what _Enc returns (the index) and from what _Trap returns (the token) is the output of a PRF/PRP/SKE under a secret (key-derived) key, a hash of such an output, an XOR mask with one, random bytes or a public value -- provenance contracts decided by the labelled ownership pass over the real AST (SSE-2 index values may be identifiers, as the property allows; key material itself never flows into index or token); AESxCBC.Encrypt's output is iv || CBC(pkcs7(m)) with a fresh 16-byte IV (C14); CJJ14.PiBas/PiPack additionally by the SMT engine (Repr). NOT decided (assumed A2/A4): that such outputs do not contain a keyword by chance. Bounded stand-in: substring absence and ciphertext-block freshness over all nine schemes"
@@ -63,7 +63,7 @@ PROPS = {
     "C05": dict(modules=["pibas", "pipack", "sse_bounded"], assumptions=A_SSE, bounded=[], partial=PARTIAL["C05"], runtime_checks=[["sse_bounded", "rt_c05"]]),
     "C06": dict(modules=["pibas", "pipack", "sse_bounded"], assumptions=A_SSE, bounded=[], partial=PARTIAL["C06"], runtime_checks=[["sse_bounded", "rt_c06"]]),
     "C07": dict(modules=["pibas", "pipack", "sse_bounded"], assumptions=A_SSE, bounded=[], partial=PARTIAL["C07"], runtime_checks=[["sse_bounded", "rt_c07"]], own_frames=OWN_FRAMES),
-    "C08": dict(modules=["pibas", "pipack", "sse_bounded"], assumptions=A_SSE, bounded=[], partial=PARTIAL["C08"], runtime_checks=[["sse_bounded", "rt_c08"]]),
+    "C08": dict(modules=["pibas", "pipack", "configs_all", "sse_bounded"], assumptions=A_SSE, bounded=[], partial=PARTIAL["C08"], runtime_checks=[["sse_bounded", "rt_c08"]]),
     "C19": dict(modules=["persist", "persist_bounded"], assumptions=A_ENGINE + ["D2: ghost file system (pyvc/files.py): open/seek/read/write/close, os.path.exists, os.unlink, pickle.dump/load on a file object as documented; sparse writes zero-fill; buffering transparent", "P1: pickle round trip of the meta tuple", "B5: collections.abc.Sequence.__iter__ is the documented loop over __getitem__ until IndexError (restated as ghost code and verified)", "cidx_def: conservative inverse of the (proved injective) chunk-path function"], bounded=[],
                 partial=PARTIAL["C19"], runtime_checks=[["persist_bounded", "rt_c19"]]),
     "C20": dict(modules=["persist", "persist_bounded"], assumptions=A_ENGINE + ["P1: pickle round trip", "D2: ghost file system (pyvc/files.py): open/seek/read/write/truncate/flush/close, os.path.exists, os.unlink, pickle.dump/load on a file object as documented; buffering transparent", "B5: collections.abc.MutableMapping mixin methods are defined through __getitem__/__iter__ as documented", "D3: a dbm handle behaves like dict[bytes, bytes] within one session"], bounded=[],
